@@ -22,6 +22,9 @@ func c03(c *Ctx) {
 	c03R3(c)
 	c03R4(c)
 	c03R5(c)
+	c03R6(c)
+	c.Rule("C03.R7", "the release gate is applied to the bindings of both address families (syncPods hands releasePodNotFound the IPv4 and the IPv6 index)")
+	c02FamilyRoles(c, "C03.R7")
 }
 
 // R1 release gate in releasePodNotFound.
@@ -639,4 +642,55 @@ func c03R4(c *Ctx) {
 func c03R5(c *Ctx) {
 	c.Rule("C03.R5", "cross-reference: the local pool (non-CRD mode) disposes only unowned addresses — C06.R3")
 	c06R3(c)
+}
+
+// R6: the "does anybody use this interface" count that licenses marking a whole interface
+// Deleting counts every bound address (the primary address of a secondary interface is handed to
+// pods like any other).
+func c03R6(c *Ctx) {
+	p := c.P
+	c.Rule("C03.R6", "node.IPUsage counts as in use every address that has a PodID (no address is left out of the count that decides whether an interface is unused)")
+	fn := p.Func(nodeCtlPkg, "IPUsage")
+	if fn == nil {
+		c.Unres("C03.R6", "node.IPUsage", "not found")
+		return
+	}
+	info := fn.Info()
+	rets := returnsOf(fn)
+	if len(rets) == 0 || len(rets[len(rets)-1].Results) != 2 {
+		c.Undec("C03.R6", "IPUsage result", p.Pos(fn.Decl), fn.Key(), "", "expected `return idle, inUse`")
+		return
+	}
+	inUse := identObj(info, rets[len(rets)-1].Results[1])
+	var loop *ast.RangeStmt
+	var inc ast.Stmt
+	ast.Inspect(fn.Decl.Body, func(nd ast.Node) bool {
+		if rs, ok := nd.(*ast.RangeStmt); ok && loop == nil {
+			loop = rs
+		}
+		switch t := nd.(type) {
+		case *ast.IncDecStmt:
+			if identObj(info, t.X) == inUse && t.Tok == token.INC {
+				inc = t
+			}
+		case *ast.AssignStmt:
+			if len(t.Lhs) == 1 && identObj(info, t.Lhs[0]) == inUse && (t.Tok == token.ADD_ASSIGN) {
+				inc = t
+			}
+		}
+		return true
+	})
+	if inUse == nil || loop == nil || inc == nil || loop.Value == nil {
+		c.Undec("C03.R6", "IPUsage counting loop", p.Pos(fn.Decl), fn.Key(), "", "for _, v := range m { … inUse++ … } not found")
+		return
+	}
+	v := exprString(loop.Value)
+	c.RequireReached("C03.R6", "every bound address is counted as in use", fn, loop.Body, inc, v+`.PodID != ""`, nil)
+	// callers decide "unused" from this count
+	n := 0
+	for _, cs := range p.CallsTo(p.FuncsInPkg(nodeCtlPkg), fn.Obj) {
+		_ = cs
+		n++
+	}
+	c.Floor("C03.R6", "callers of IPUsage", 1, n)
 }
